@@ -450,7 +450,8 @@ func (res *CheckResult) checkSource(source parser.Source) {
 			res.unboundedAccountInSend = source.Address
 		}
 
-		if res.unboundedSend {
+		// a bounded overdraft is fine in a send-all: balance + overdraft is taken
+		if res.unboundedSend && source.Bounded == nil {
 			res.Diagnostics = append(res.Diagnostics, Diagnostic{
 				Range: source.Address.GetRange(),
 				Kind:  &InvalidUnboundedAccount{},
